@@ -50,4 +50,34 @@ def resultO {σ : Type} (cfg : Cfg) (obs : Option StageObs) (stages : List (Stag
   ({ success := ok, final := if ok then some r.1.acc.cur else none, completed := c, total := stages.length
      amplification := r.1.acc.amp, blockedAt := r.1.acc.blockedAt, results := r.1.results, log := r.1.log }, r.2)
 
+/-- Everything user code is called for during a run, in call order: the callbacks of the stages (`cb`) and the notifications
+    of `on_stage_complete` (`shown i`: the observer is handed the result of stage `i`). -/
+inductive Note (σ : Type) where
+  | cb (e : Ev σ)
+  | shown (i : Nat)
+  deriving Repr, DecidableEq
+
+/-- the calls made while stage `i` is worked: its callbacks, then — if its processor returned — the notification (the observer
+    is called after the COMPLETED result was recorded and before the next stage's gate is consulted) -/
+def stepNotes {σ : Type} (cfg : Cfg) (obs : Option StageObs) (i : Nat) (s : Stage σ) (a : Acc σ) : List (Note σ) :=
+  (stageStep cfg i s a).evs.map .cb ++ (stageSeen obs i s a).map .shown
+
+def notesFrom {σ : Type} (cfg : Cfg) (obs : Option StageObs) : Nat → List (Stage σ) → Acc σ → List (Note σ)
+  | _, [], _ => []
+  | i, s :: rest, a =>
+    if (stageStep cfg i s a).stop then stepNotes cfg obs i s a
+    else stepNotes cfg obs i s a ++ notesFrom cfg obs (i + 1) rest (stageStep cfg i s a).acc
+
+/-- the call sequence of `run` -/
+def notes {σ : Type} (cfg : Cfg) (obs : Option StageObs) (stages : List (Stage σ)) (x : σ) : List (Note σ) :=
+  notesFrom cfg obs 0 stages ⟨x, clamp cfg 1, none⟩
+
+def Note.cb? {σ : Type} : Note σ → Option (Ev σ)
+  | .cb e => some e
+  | .shown _ => none
+
+def Note.shown? {σ : Type} : Note σ → Option Nat
+  | .cb _ => none
+  | .shown i => some i
+
 end Operon.Cascade
